@@ -222,7 +222,14 @@ def run(tier, seed):
         keep = [i for i in rows if sensitive.match(E.rows[i]['name'])]
         rest = [i for i in rows if i not in keep]
         random.Random(seed).shuffle(rest)
-        rows = sorted(keep + rest[:60])
+        try:
+            from checks import c01
+            chg = [i for i in c01.changed_rows() if i < n]
+        except Exception as x:
+            chg = []
+            ck.notes.append('closure comparison with the reference tree failed (%s): no targeted rows' % str(x)[:80])
+        rows = sorted(set(keep + rest[:60] + chg))
+        ck.notes.append('%d rows whose handler IR differs from the pinned reference tree are always included' % len(chg))
         ck.bounds.append('quick tier: %d of %d rows (all control-flow / stack / loop / move / status rows plus a seeded sample of the arithmetic rows); thorough: every row, plus every row again on the UBSan-instrumented IR' % (len(rows), n))
     jobs = [(job_row, (i, False, tier, seed)) for i in rows] + [(job_run, (tier, seed)), (job_dma, (tier, seed)), (job_mem, (tier, seed))]
     if tier == 'thorough':
